@@ -5,6 +5,7 @@ import (
 	"context"
 	"fmt"
 	"testing"
+	"testing/synctest"
 	"time"
 
 	"nhooyr.io/websocket"
@@ -42,7 +43,7 @@ var c02Modes = []c03Mode{
 var c02Thresholds = []int{0, 1, 64, 512, 5000, 100000}
 
 type outOp struct {
-	Kind   string // write | writer | ping
+	Kind   string // write | writer | ping | wping (Writer; Write(Chunks[0] bytes); Ping; Write(rest); Close) | burst
 	Text   bool
 	CKind  int
 	Seed   uint64
@@ -61,14 +62,24 @@ func genOutOps(rt *rapid.T, maxOps, maxLen int, pings bool) []outOp {
 	ops := make([]outOp, n)
 	for i := range ops {
 		o := &ops[i]
-		k := rapid.IntRange(0, 9).Draw(rt, "opKind")
+		k := rapid.IntRange(0, 12).Draw(rt, "opKind")
 		switch {
 		case k < 4:
 			o.Kind = "write"
 		case k < 8:
 			o.Kind = "writer"
-		default:
+		case k < 10:
 			o.Kind = "ping"
+			if !pings {
+				o.Kind = "write"
+			}
+		case k < 12:
+			o.Kind = "wping"
+			if !pings {
+				o.Kind = "writer"
+			}
+		default:
+			o.Kind = "burst"
 			if !pings {
 				o.Kind = "write"
 			}
@@ -76,10 +87,20 @@ func genOutOps(rt *rapid.T, maxOps, maxLen int, pings bool) []outOp {
 		if o.Kind == "ping" {
 			continue
 		}
+		if o.Kind == "wping" {
+			genWPing(rt, o, maxLen)
+			continue
+		}
 		o.Text = rapid.Bool().Draw(rt, "text")
 		o.CKind = rapid.IntRange(0, numContentKinds-1).Draw(rt, "ckind")
 		o.Seed = rapid.Uint64().Draw(rt, "seed")
 		o.Len = genLen(rt, maxLen, "len")
+		if o.Kind == "burst" {
+			o.Len = rapid.SampledFrom([]int{0, 100, 5000, 9000, 70000}).Draw(rt, "burstLen")
+			if o.Len > maxLen {
+				o.Len = maxLen
+			}
+		}
 		if o.Kind == "writer" {
 			nc := rapid.IntRange(0, 6).Draw(rt, "nChunks")
 			for c := 0; c < nc; c++ {
@@ -88,6 +109,29 @@ func genOutOps(rt *rapid.T, maxOps, maxLen int, pings bool) []outOp {
 		}
 	}
 	return ops
+}
+
+// genWPing draws a message that is interrupted by a Ping call after its first
+// Write: lengths around one 64 KiB deflate block and contents biased towards the
+// kind whose first block leaves the compressor as a single piece, so that the
+// control frame follows the FIRST frame of a compressed message directly.
+func genWPing(rt *rapid.T, o *outOp, maxLen int) {
+	o.Text = rapid.Bool().Draw(rt, "text")
+	o.CKind = rapid.SampledFrom([]int{ckHeadRandom, ckHeadRandom, ckHeadRandom, ckZero, ckText, ckRandom, ckPattern}).Draw(rt, "ckind")
+	o.Seed = rapid.Uint64().Draw(rt, "seed")
+	lens := []int{300, 5000, 65535, 65536, 66000, 70000}
+	for len(lens) > 1 && lens[len(lens)-1] > maxLen {
+		lens = lens[:len(lens)-1]
+	}
+	o.Len = rapid.SampledFrom(lens).Draw(rt, "len")
+	first := rapid.SampledFrom([]int{o.Len, o.Len - 1, 65535, 65536, 66000, 4096, 1}).Draw(rt, "first")
+	if first > o.Len {
+		first = o.Len
+	}
+	if first < 0 {
+		first = 0
+	}
+	o.Chunks = []int{first}
 }
 
 // doOutOp performs one write-side operation; payload is the op's content.
@@ -101,6 +145,22 @@ func doOutOp(ctx context.Context, conn *websocket.Conn, o outOp, payload []byte)
 		return conn.Ping(ctx)
 	case "write":
 		return conn.Write(ctx, typ, payload)
+	case "wping":
+		w, err := conn.Writer(ctx, typ)
+		if err != nil {
+			return err
+		}
+		first := o.Chunks[0]
+		if _, err := w.Write(payload[:first]); err != nil {
+			return err
+		}
+		if err := conn.Ping(ctx); err != nil {
+			return fmt.Errorf("Ping between two Writes of a message: %w", err)
+		}
+		if _, err := w.Write(payload[first:]); err != nil {
+			return err
+		}
+		return w.Close()
 	case "writer":
 		w, err := conn.Writer(ctx, typ)
 		if err != nil {
@@ -126,22 +186,63 @@ func doOutOp(ctx context.Context, conn *websocket.Conn, o outOp, payload []byte)
 	return nil
 }
 
-func sameKeyTriple(keys [][4]byte) bool {
-	for i := 2; i < len(keys); i++ {
-		if keys[i] == keys[i-1] && keys[i] == keys[i-2] {
-			return true
+// repeatedKeys: "keys that differ between frames". One equal neighbouring pair
+// can happen by chance (2^-32 per pair); two in one case cannot in practice.
+func repeatedKeys(keys [][4]byte) bool {
+	pairs := 0
+	for i := 1; i < len(keys); i++ {
+		if keys[i] == keys[i-1] {
+			pairs++
 		}
 	}
-	return false
+	return pairs >= 2
+}
+
+// doBurst: a Write is held up by a zero window while it holds the frame lock,
+// three Ping calls queue up behind it one after the other, then the window opens.
+func doBurst(e *env, lc *libConn, o outOp, payload []byte) error {
+	ctx := context.Background()
+	typ := websocket.MessageBinary
+	if o.Text {
+		typ = websocket.MessageText
+	}
+	lc.End.SetInBudget(0)
+	var werr error
+	var perr [3]error
+	wd := e.Call(func() { werr = lc.C.Write(ctx, typ, payload) })
+	synctest.Wait()
+	var pd [3]<-chan struct{}
+	for j := range pd {
+		j := j
+		pd[j] = e.Call(func() { perr[j] = lc.C.Ping(ctx) })
+		synctest.Wait()
+	}
+	lc.End.SetInBudget(-1)
+	if !within(wd, 60*time.Second) {
+		return fmt.Errorf("Write did not finish within 60 s after the window opened")
+	}
+	if werr != nil {
+		return werr
+	}
+	for j := range pd {
+		if !within(pd[j], 60*time.Second) {
+			return fmt.Errorf("queued Ping %d did not finish within 60 s", j)
+		}
+		if perr[j] != nil {
+			return fmt.Errorf("queued Ping %d: %w", j, perr[j])
+		}
+	}
+	return nil
 }
 
 type c02Result struct {
+	CtlAfterFirst int // control frames that directly follow the non-final first frame of a compressed message
 	Rep        *ref.StreamReport
 	Asymmetric bool
 	Deflate    bool
 }
 
-func runC02(t fataler, mode c03Mode, threshold int, ops []outOp, closeCode int, closeReason string, doClose bool) (string, c02Result) {
+func runC02(t fataler, mode c03Mode, threshold int, ops []outOp, closeCode int, closeReason string, doClose bool, storm bool) (string, c02Result) {
 	var res c02Result
 	e := newEnv(t)
 	defer e.Teardown()
@@ -152,6 +253,11 @@ func runC02(t fataler, mode c03Mode, threshold int, ops []outOp, closeCode int, 
 	p := lc.Peer
 	p.onFrame = func(f ref.Frame) {
 		switch f.Opcode {
+		case ref.OpText, ref.OpBinary, ref.OpCont:
+			if storm {
+				// the library answers from its reader goroutine, racing with the program's own frames
+				p.send(ref.Frame{Fin: true, Opcode: ref.OpPing, Payload: []byte{byte(len(f.Payload))}})
+			}
 		case ref.OpPing:
 			p.send(ref.Frame{Fin: true, Opcode: ref.OpPong, Payload: f.Payload})
 		case ref.OpClose:
@@ -180,7 +286,13 @@ func runC02(t fataler, mode c03Mode, threshold int, ops []outOp, closeCode int, 
 		for i, o := range ops {
 			payload := expand(o.CKind, o.Seed, o.Len)
 			keep := append([]byte(nil), payload...)
-			if err := doOutOp(ctx, conn, o, payload); err != nil {
+			var err error
+			if o.Kind == "burst" {
+				err = doBurst(e, lc, o, payload)
+			} else {
+				err = doOutOp(ctx, conn, o, payload)
+			}
+			if err != nil {
 				opErr = fmt.Sprintf("op %d %v failed: %v", i, o, err)
 				return
 			}
@@ -191,6 +303,12 @@ func runC02(t fataler, mode c03Mode, threshold int, ops []outOp, closeCode int, 
 			if o.Kind == "ping" {
 				nPings++
 			} else {
+				if o.Kind == "wping" {
+					nPings++
+				}
+				if o.Kind == "burst" {
+					nPings += 3
+				}
 				typ := byte(ref.OpBinary)
 				if o.Text {
 					typ = ref.OpText
@@ -220,6 +338,14 @@ func runC02(t fataler, mode c03Mode, threshold int, ops []outOp, closeCode int, 
 	res.Asymmetric = lc.Agreed.Deflate && lc.Agreed.ClientNoCtx != lc.Agreed.ServerNoCtx
 	rep, verr := ref.ValidateStream(wire, ref.StreamOpts{FromClient: mode.Client, Deflate: lc.Agreed.Deflate, Takeover: takeover}, false)
 	res.Rep = rep
+	if frames, _, ferr := ref.ParseFrames(wire); ferr == nil {
+		for i := 1; i < len(frames); i++ {
+			f0 := frames[i-1]
+			if frames[i].IsControl() && !f0.IsControl() && f0.Opcode != ref.OpCont && !f0.Fin && lc.Agreed.Deflate {
+				res.CtlAfterFirst++
+			}
+		}
+	}
 	if verr != nil {
 		return fmt.Sprintf("emitted stream is not conformant (agreed: %+v, sender takeover=%v): %v", lc.Agreed, takeover, verr), res
 	}
@@ -240,8 +366,8 @@ func runC02(t fataler, mode c03Mode, threshold int, ops []outOp, closeCode int, 
 	if len(rep.Pings) != nPings {
 		return fmt.Sprintf("%d Ping frames on the wire, %d Ping calls", len(rep.Pings), nPings), res
 	}
-	if mode.Client && sameKeyTriple(rep.Keys) {
-		return "three consecutive frames carry the same masking key", res
+	if mode.Client && repeatedKeys(rep.Keys) {
+		return "consecutive frames carry the same masking key (twice in this program)", res
 	}
 	if len(rep.Closes) == 0 {
 		if !doClose || ref.Sendable(closeCode) && len(closeReason) <= 123 || closeCode == 1005 {
@@ -267,12 +393,13 @@ func runC02(t fataler, mode c03Mode, threshold int, ops []outOp, closeCode int, 
 
 func TestC02(t *testing.T) {
 	rec := evid.For("C02")
-	rec.Rule = "rapid-generated programs of Write / Writer(chunk list) / Ping calls (1-8 ops, boundary-biased lengths up to 70000, 5 content kinds) optionally ended by Close(code, reason), over 19 (role, mode, foreign offer or response) settings incl. asymmetric context-takeover agreements and window-bits parameters, x 6 thresholds; the recorded outbound bytes are parsed by the strict reference decoder (masking per role, key reuse, minimal lengths, control-frame rules, fragmentation sequencing, RSV rules, inflation under the sender direction's takeover setting, reconstructed messages == written, Close payload). Non-trivial: >=1 compressed (RSV1) message, or a message of >=3 frames, or an asymmetric agreement. distinct = hash(setting, threshold, op shapes, close)."
+	rec.Rule = "rapid-generated programs of Write / Writer(chunk list) / Ping / Writer interrupted by a Ping after its first Write / a Write held up by a zero window with three Ping calls queued behind it (1-8 ops, in a quarter of the programs the peer sends a Ping for every data frame it receives so that the automatic Pongs race with the program's frames; boundary-biased lengths up to 70000, 5 content kinds) optionally ended by Close(code, reason), over 19 (role, mode, foreign offer or response) settings incl. asymmetric context-takeover agreements and window-bits parameters, x 6 thresholds; the recorded outbound bytes are parsed by the strict reference decoder (masking per role, key reuse, minimal lengths, control-frame rules, fragmentation sequencing, RSV rules, inflation under the sender direction's takeover setting, reconstructed messages == written, Close payload). Non-trivial: >=1 compressed (RSV1) message, or a message of >=3 frames, or an asymmetric agreement. distinct = hash(setting, threshold, op shapes, close)."
 	rapid.Check(t, func(rt *rapid.T) {
 		mode := rapid.SampledFrom(c02Modes).Draw(rt, "mode")
 		th := rapid.SampledFrom(c02Thresholds).Draw(rt, "threshold")
 		ops := genOutOps(rt, 8, 70000, true)
 		doClose := rapid.Bool().Draw(rt, "doClose")
+		storm := rapid.IntRange(0, 3).Draw(rt, "storm") == 0
 		code, reason := 1000, ""
 		if doClose {
 			code = rapid.OneOf(rapid.SampledFrom([]int{1000, 1001, 1003, 1008, 1011, 3000, 4999, 1005}), rapid.IntRange(0, 5100)).Draw(rt, "closeCode")
@@ -281,9 +408,9 @@ func TestC02(t *testing.T) {
 		var msg string
 		var res c02Result
 		rapid.SyncTest(rt, func(rt *rapid.T) {
-			msg, res = runC02(rt, mode, th, ops, code, reason, doClose)
+			msg, res = runC02(rt, mode, th, ops, code, reason, doClose, storm)
 		})
-		shape := fmt.Sprintf("%s|%d|%v%d", mode.Name, th, doClose, code)
+		shape := fmt.Sprintf("%s|%d|%v%d|%v", mode.Name, th, doClose, code, storm)
 		for _, o := range ops {
 			shape += fmt.Sprintf("|%s%d/%d/%d", o.Kind, o.CKind, lenClass(o.Len), len(o.Chunks))
 		}
@@ -301,6 +428,9 @@ func TestC02(t *testing.T) {
 			if res.Rep.WindowSlid {
 				classes = append(classes, "window-slid")
 			}
+			if res.CtlAfterFirst > 0 {
+				classes = append(classes, "control-frame-right-after-first-frame-of-compressed-message")
+			}
 		}
 		if res.Asymmetric {
 			nt = true
@@ -308,10 +438,10 @@ func TestC02(t *testing.T) {
 		}
 		rec.Case(nt, shape, classes...)
 		if rec.WantSample() {
-			rec.Sample(map[string]any{"mode": mode.Name, "threshold": th, "ops": fmt.Sprint(ops), "close": doClose, "code": code, "reason_len": len(reason)})
+			rec.Sample(map[string]any{"mode": mode.Name, "threshold": th, "ops": fmt.Sprint(ops), "ping_storm": storm, "close": doClose, "code": code, "reason_len": len(reason)})
 		}
 		if msg != "" {
-			rt.Fatalf("C02 mode=%s threshold=%d ops=%v close=%v/%d/%d: %s", mode.Name, th, ops, doClose, code, len(reason), msg)
+			rt.Fatalf("C02 mode=%s threshold=%d ops=%v close=%v/%d/%d pingStorm=%v: %s", mode.Name, th, ops, doClose, code, len(reason), storm, msg)
 		}
 	})
 }
